@@ -12,6 +12,7 @@ import EsbuildModel.Impl.Shake
 import EsbuildModel.Impl.TsEnum
 import EsbuildModel.Impl.Rename
 import EsbuildModel.Impl.Writes
+import EsbuildModel.Impl.SmSections
 
 open EsbuildModel
 
@@ -31,6 +32,7 @@ def dispatch (kernel : String) (args : List String) : String :=
   | "tsenum" => TsEnum.driver args
   | "rename" => Rename.driver args
   | "writes" => Writes.driver args
+  | "smsections" => SmSections.driver args
   | _ => "bad-kernel"
 
 partial def loop (hin hout : IO.FS.Stream) : IO Unit := do
